@@ -44,6 +44,38 @@ def unchanged_fails(case):
             now = a.data if isinstance(a, UTPM) else a
             if now.shape != b.shape or now.tobytes() != b.tobytes():
                 return 'mutated-%s: argument %d (memory layout %s) was modified by the call' % (case['op'], i, layout)
+        f = fresh_result_fails(case, args, before) if layout == 'C' else None
+        if f:
+            return f
+    return None
+
+
+def fresh_result_fails(case, args, before):
+    """where NumPy returns a fresh array (its result does not share memory with the arguments), the result of the overloaded
+    operation must not share its coefficient storage with an argument either: a later in-place update of the result would
+    modify the argument.  Operations for which NumPy returns a view (indexing, reshape, transpose, real, ...) are exempt."""
+    o = ops.OPS[case['op']]
+    if o['ref'] is None:
+        return None
+    try:
+        with np.errstate(all='ignore'):
+            z = [a.data[0, 0, ...] if isinstance(a, UTPM) else a for a in args]
+            r = o['ref'](z)
+            np_all = list(r) if isinstance(r, (tuple, list)) else [r]
+            np_outs = [x for x in np_all if isinstance(x, np.ndarray)]
+            if len(np_outs) != len(np_all):
+                return None         # NumPy returns a scalar (e.g. an integer index): no aliasing behaviour to compare with
+            if any(np.shares_memory(x, y) for x in np_outs for y in z if isinstance(y, np.ndarray)):
+                return None
+            res = o['call'](args)
+    except Exception:
+        return None
+    outs = [x for x in (res if isinstance(res, (tuple, list)) else [res]) if isinstance(x, UTPM)]
+    for k, out in enumerate(outs):
+        for i, a in enumerate(args):
+            if isinstance(a, UTPM) and a.data.size and out.data.size and np.shares_memory(out.data, a.data):
+                return ('aliased-%s: output %d shares its coefficient storage with argument %d although NumPy returns a fresh array: '
+                        'an in-place update of the result modifies the argument' % (case['op'], k, i))
     return None
 
 
@@ -83,8 +115,11 @@ def alias_fails(ctx, case):
         want = IBIN[sym](UTPM(x0.copy()), UTPM(x0[:, :, ::-1].copy()))
     elif mode == 'inplace-ndview':
         # the right operand is a plain ndarray that views one coefficient of the left operand (x op= x.data[d, p])
-        d_ = ctx.rng.randrange(x0.shape[0]) if ctx.rng.random() < 0.5 else 0
-        p_ = ctx.rng.randrange(x0.shape[1])
+        if 'dp' in case:
+            d_, p_ = case['dp']
+        else:
+            d_ = ctx.rng.randrange(x0.shape[0]) if ctx.rng.random() < 0.5 else 0
+            p_ = ctx.rng.randrange(x0.shape[1])
         if sym == 'div' and np.any(np.abs(x0[d_, p_]) < 0.2):
             return None
         x = UTPM(x0.copy())
@@ -245,6 +280,21 @@ def run(ctx):
         f = unchanged_fails(case)
         if f:
             ctx.report(case, 'failure', f)
+    # every in-place operator with the right operand a plain ndarray viewing one coefficient (d, p) of the left operand, for
+    # every (d, p) of a polynomial with several directions (x op= x.data[d, p]), on every run
+    for sym in sorted(BIN):
+        for P_ in (2, 3):
+            for d_ in (0, 1):
+                for p_ in range(P_):
+                    case = alias_case(ctx.rng, ctx.tier)
+                    x = rand_coeffs(ctx.rng, (2, P_, 2), -2, 2)
+                    x[np.abs(x) < 0.25] = 0.75
+                    case.update({'sym': sym, 'mode': 'inplace-ndview', 'D': 2, 'P': P_, 'x': x, 'dp': [d_, p_]})
+                    ctx.evaluations += 1
+                    ctx.count('alias-systematic-ndview')
+                    f = alias_fails(ctx, case)
+                    if f:
+                        ctx.report(case, 'failure', f)
     for i in range(300 if ctx.tier == 'quick' else 4000):
         case = alias_case(ctx.rng, ctx.tier)
         ctx.evaluations += 1
